@@ -4,7 +4,8 @@ from vf.common import Harness, REPO
 
 LEVEL = "model_checking"
 TECHNIQUE = "CBMC bounded symbolic execution of allocation-heavy units with a nondeterministically failing allocator (one symbolic bit per allocation = every fault schedule in one query)"
-ASSUMPTIONS = ["unit level: arena, notebook (stopping at / continuing after the first failed allocation), stack, hash table, atom extraction, sized strings, yr_rules_from_arena + destroy, AC transition-table growth; whole-API scenarios (compile this rule with the k-th malloc failing) need the parser and are outside",
+ASSUMPTIONS = ["H2_regex: the MATCH instruction of the regex VM (shared with C03): a failing match callback (e.g. allocation failure while recording the match) returns every fiber to the pool",
+               "unit level: arena, notebook (stopping at / continuing after the first failed allocation), stack, hash table, atom extraction, sized strings, yr_rules_from_arena + destroy, AC transition-table growth; whole-API scenarios (compile this rule with the k-th malloc failing) need the parser and are outside",
                "allocator = harness/common/mem_fail.h replacing mem.c; realloc failure leaves the old block valid (realloc(3) contract)"]
 LEVEL_TEXT = "Bounded model checking over all fault schedules of each unit (every subset of its allocation sites failing), with leak accounting."
 LEVEL_NOTE = "; ".join(ASSUMPTIONS)
@@ -23,7 +24,18 @@ def gen_types(ctx_, outdir):
     return c20.gen_types(ctx_, outdir)
 
 
-def harnesses(ctx, tier):
+def _shared_c03(ctx, tier):
+    """the MATCH instruction of the regex VM (C03.H1, cut from yr_re_exec): on a callback error every fiber is back in the pool"""
+    from vf.props import c03
+    for h in c03.harnesses(ctx, tier):
+        if h.name == "H1_step_MATCH":
+            h.name = "H2_regex_fibers_released_on_callback_error"
+            h.desc = "when the match callback fails (allocation failure while recording a match) every fiber goes back to the pool and is released with it (shared with C03: " + h.desc + ")"
+            return [h]
+    return []
+
+
+def _own_harnesses(ctx, tier):
     hs = [
         unit("arena", 1, uf={"memcmp": 13, "vf_fill": 13, "_yr_arena_allocate_memory": 6, "yr_arena_release": 6}, desc="arena.c: create, allocate_struct, write_data x2 (growth), make_ptr_relocatable, release"),
         unit("notebook", 2, unwind=5, mem_gb=16, desc="notebook.c: create, up to 3 allocations across pages (stop at the first failure), destroy"),
@@ -48,3 +60,7 @@ def harnesses(ctx, tier):
             h.gen = gen_types
             h.includes = ["-I@OUTDIR@", "-I" + os.path.join(REPO, "libyara", "include", "yara")]
     return hs
+
+
+def harnesses(ctx, tier):
+    return _own_harnesses(ctx, tier) + _shared_c03(ctx, tier)
